@@ -178,14 +178,14 @@ type Server struct {
 	// (the default is the real typed clients' convention: a non-nil zero object). Code that is correct
 	// under both conventions is what the repository's own tests and production respectively rely on.
 	NilOnError bool
-	mu    sync.Mutex
-	Kube  *kubefake.Clientset
-	PC    *pcfake.Clientset
-	store Snapshot
-	rv    uint64
-	uid   uint64
-	tick  int64
-	seq   int
+	mu         sync.Mutex
+	Kube       *kubefake.Clientset
+	PC         *pcfake.Clientset
+	store      Snapshot
+	rv         uint64
+	uid        uint64
+	tick       int64
+	seq        int
 
 	log                []*Call
 	curRec             int
